@@ -63,6 +63,11 @@ func facts() map[string]any {
 		m := buildCalcMsg(base, []rrItem{}, []rrItem{{kind: 's', ttl: 3600, a: 60}}, nil)
 		return dnsutil.CalculateCacheTTL(m, dnsutil.TypeNoRecords)
 	})
+	// an alias answer carrying its target's SOA (TTL 3600, minimum 60) next to a 3600 s CNAME
+	alias := calcRetry(func(base int64) time.Duration {
+		m := buildCalcMsg(base, []rrItem{{kind: 'p', ttl: 3600}}, []rrItem{{kind: 's', ttl: 3600, a: 60}}, nil)
+		return dnsutil.CalculateCacheTTL(m, dnsutil.TypeSuccess)
+	})
 	return map[string]any{
 		"minCacheTTL_ns":        int64(dnsutil.MinCacheTTL),
 		"maxCacheTTL_ns":        int64(dnsutil.MaxCacheTTL),
@@ -74,6 +79,7 @@ func facts() map[string]any {
 		"rrsig_short_ttl_ns":    int64(short),
 		"neg_sig40_soa300_s":    int64((neg + time.Second - 1) / time.Second),
 		"nodata_soamin60_s":     int64((soamin + time.Second - 1) / time.Second),
+		"alias_soamin60_s":      int64((alias + time.Second - 1) / time.Second),
 		"max_denial_proof_ns":   int64(cache.VerifC04MaxDenialProofTTL()),
 		"cut_max_ttl_expire600": int64(cache.VerifC04CutMaxTTL(c)),
 		"hist_cut_max_ns":       histCutMax(),
